@@ -217,6 +217,53 @@ def split_write_shape(SplitWriter):
     return ge, steps
 
 
+def split_stdout_shape(SplitWriter):
+    """SplitWriter.__init__: `parsed = urlparse(self.path)`; `self.is_stdout = <conjunction of tests on parsed.netloc /
+    parsed.path>`, each test `parsed.X in (<string constants>)` or `parsed.X == <string constant>`.
+    -> (netloc values or None, path values or None)"""
+    fn = SplitWriter.__init__
+    node = _fdef(fn)
+    parsed_ok = False
+    expr = None
+    for st in ast.walk(node):
+        if isinstance(st, ast.Assign) and len(st.targets) == 1:
+            t = st.targets[0]
+            if isinstance(t, ast.Name) and t.id == "parsed":
+                v = st.value
+                if not (isinstance(v, ast.Call) and isinstance(v.func, ast.Name) and v.func.id == "urlparse" and len(v.args) == 1
+                        and _self_attr(v.args[0]) == "path" and not v.keywords):
+                    raise Unsupported("`parsed` is not urlparse(self.path) (%s)" % _where(fn, st))
+                parsed_ok = True
+            if _self_attr(t) == "is_stdout":
+                if expr is not None:
+                    raise Unsupported("self.is_stdout is assigned more than once in SplitWriter.__init__")
+                expr = st.value
+    if not parsed_ok or expr is None:
+        raise Unsupported("SplitWriter.__init__ does not compute self.is_stdout from urlparse(self.path)")
+    tests = expr.values if isinstance(expr, ast.BoolOp) and isinstance(expr.op, ast.And) else [expr]
+    out = {"netloc": None, "path": None}
+    for t in tests:
+        if not (isinstance(t, ast.Compare) and len(t.ops) == 1 and isinstance(t.left, ast.Attribute)
+                and isinstance(t.left.value, ast.Name) and t.left.value.id == "parsed" and t.left.attr in out):
+            raise Unsupported("unrecognised test in self.is_stdout (%s)" % _where(fn, t))
+        c = t.comparators[0]
+        if isinstance(t.ops[0], ast.In) and isinstance(c, (ast.Tuple, ast.List, ast.Set)) \
+                and all(isinstance(e, ast.Constant) and isinstance(e.value, str) for e in c.elts):
+            vals = [e.value for e in c.elts]
+        elif isinstance(t.ops[0], ast.Eq) and isinstance(c, ast.Constant) and isinstance(c.value, str):
+            vals = [c.value]
+        else:
+            raise Unsupported("unrecognised test in self.is_stdout (%s)" % _where(fn, t))
+        if out[t.left.attr] is not None:
+            # two tests on the same part: both must hold -> intersection
+            vals = [v for v in vals if v in out[t.left.attr]]
+        out[t.left.attr] = vals
+    for vals in out.values():
+        if vals is not None and not all(all(32 <= ord(ch) < 127 for ch in v) for v in vals):
+            raise Unsupported("non-ASCII value in self.is_stdout test")
+    return out["netloc"], out["path"]
+
+
 def rotation_formats(PathTemplateWriter, stamp_only=False):
     """(strftime spec of the rotation stamp, format of the rotated file name, format with a counter or None)
     from rotate_existing_file.  The counter format is reported only for the exact loop
@@ -348,8 +395,10 @@ def shapes():
         raise Unsupported("StreamWriter.close closes neither self.stream nor self.fp")
     ge, steps = split_write_shape(SplitWriter)
     stamp_spec, name_fmt, counter_fmt = rotation_formats(PathTemplateWriter)
+    stdout_netloc, stdout_path = split_stdout_shape(SplitWriter)
     return dict(exit=exit_calls, del_=del_calls, avro_close_flushes=bool(avro_flushes),
                 avro_flush_placeholder=avro_flush_placeholder, avro_close_placeholder=avro_close_placeholder,
+                split_stdout_netloc=stdout_netloc, split_stdout_path=stdout_path,
                 rotate_counter=counter_fmt is not None, rotated_name_counter_format=counter_fmt or "",
                 stream_close_flushes=bool(s1 or s2), split_ge=ge, split_roll=steps,
                 stamp_spec=stamp_spec, rotated_name_format=name_fmt)
@@ -387,8 +436,13 @@ def gen_writers():
         clist(sh["exit"]), clist(sh["del_"]), cbool(sh["avro_flush_placeholder"]), cbool(sh["avro_close_placeholder"]))
     out += "     sh_avro_close_flushes := %s;\n     sh_stream_close_flushes := %s;\n" % (
         cbool(sh["avro_close_flushes"]), cbool(sh["stream_close_flushes"]))
-    out += "     sh_split_ge := %s;\n     sh_split_roll := %s;\n     sh_rotate_counter := %s |}.\n" % (
+    out += "     sh_split_ge := %s;\n     sh_split_roll := %s;\n     sh_rotate_counter := %s;\n" % (
         cbool(sh["split_ge"]), clist(sh["split_roll"]), cbool(sh["rotate_counter"]))
+
+    def optvals(v):
+        return "None" if v is None else "(Some %s)" % clist([cstr(x) for x in v])
+    out += "     sh_split_stdout_netloc := %s;\n     sh_split_stdout_path := %s |}.\n" % (
+        optvals(sh["split_stdout_netloc"]), optvals(sh["split_stdout_path"]))
     write_if_changed(GEN / "Gen_writers.v", out)
 
 
